@@ -492,6 +492,7 @@ def rms(fs, duration, target):
     n = int(round(fs * duration))
     data = [(yield)]
     samples = sum(d.shape[-1] for d in data)
+    out_s0 = None
 
     while True:
         if samples >= n:
@@ -505,6 +506,13 @@ def rms(fs, duration, target):
             result = np.mean(d ** 2, axis=-1) ** 0.5
             if isinstance(result, PipelineData):
                 result.channel = data.channel
+                # Blocks are numbered additively from the first one so that
+                # consecutive outputs are exactly contiguous for any first s0
+                # (s0 / n is not exactly additive in floating point).
+                if out_s0 is None:
+                    out_s0 = result.s0
+                result.s0 = out_s0
+                out_s0 = out_s0 + n_blocks
 
             target(result)
             d = data[..., n_samples:]
